@@ -1,12 +1,4 @@
-import Driver.Util
+import Driver.HeapCommon
 import Driver.Loop
-open Lean Drv
 
-namespace DrvC06
-
-/-- Stub: replaced when the model of C06 is built. -/
-def handle (_j : Json) : Except String Json := throw "model of C06 not built"
-
-end DrvC06
-
-def main : IO Unit := Drv.runLoop DrvC06.handle
+def main : IO Unit := Drv.runLoop DrvHeap.handle
